@@ -1,8 +1,6 @@
 (* LostSegProofs.v — proofs for property C18 (props/C18.v).
    Model: LostSeg.v; abstract reading: LostSegSpec.v.  Stdlib only. *)
 From CFDP Require Import Base LostSeg LostSegSpec.
-From Coq Require Import ZArith List Bool Lia.
-Import ListNotations.
 Open Scope Z_scope.
 
 (* ------------------------------------------------------------------ *)
@@ -229,3 +227,648 @@ Proof.
   destruct HK as [HK1 HK2]. apply SS_insert_sorted; [apply IH; exact HK2|].
   intros q Hq. apply HK1. apply (proj1 (In_sort_items t q)). exact Hq.
 Qed.
+
+(* ------------------------------------------------------------------ *)
+(* Part 2: Inv as sorted + well-formed; den depends on membership only *)
+(* ------------------------------------------------------------------ *)
+
+Lemma Inv_tail : forall p t, Inv (p :: t) -> Inv t.
+Proof.
+  intros p t H. inversion H; subst; [constructor|assumption].
+Qed.
+
+Lemma Inv_head : forall s e t, Inv ((s, e) :: t) ->
+  s < e /\ forall q, In q t -> e <= fst q /\ fst q < snd q.
+Proof.
+  intros s e t. revert s e.
+  induction t as [|[s' e'] t IH]; intros s e H.
+  - inversion H; subst. split; [assumption|intros q Hq; contradiction].
+  - inversion H as [| |s1 e1 s2 e2 t2 Hlt Hle Hinv]; subst.
+    destruct (IH s' e' Hinv) as [Hlt' Hall].
+    split; [exact Hlt|].
+    intros q [Hq|Hq].
+    + subst q. simpl. lia.
+    + destruct (Hall q Hq) as [H1 H2]. lia.
+Qed.
+
+Lemma Inv_SS : forall l, Inv l -> SS l.
+Proof.
+  induction l as [|[s e] t IH]; intros H; simpl; [exact I|].
+  destruct (Inv_head s e t H) as [Hlt Hall].
+  split; [|apply IH; apply (Inv_tail _ _ H)].
+  intros q Hq. destruct (Hall q Hq) as [H1 H2]. lia.
+Qed.
+
+Lemma Inv_WF : forall l, Inv l -> WF l.
+Proof.
+  induction l as [|[s e] t IH]; intros H.
+  - split; [intros p Hp; contradiction|intros p q Hp; contradiction].
+  - destruct (Inv_head s e t H) as [Hlt Hall].
+    destruct (IH (Inv_tail _ _ H)) as [W1 W2].
+    split.
+    + intros p [Hp|Hp]; [subst p; exact Hlt|apply W1; exact Hp].
+    + intros p q [Hp|Hp] [Hq|Hq].
+      * subst p q. left; reflexivity.
+      * subst p. simpl. destruct (Hall q Hq) as [H1 H2]. right; left; exact H1.
+      * subst q. simpl. destruct (Hall p Hp) as [H1 H2]. right; right; exact H1.
+      * apply W2; assumption.
+Qed.
+
+Lemma WF_tail : forall p t, WF (p :: t) -> WF t.
+Proof.
+  intros p t [W1 W2]. split.
+  - intros q Hq. apply W1. right; exact Hq.
+  - intros q r Hq Hr. apply W2; right; assumption.
+Qed.
+
+Lemma SS_WF_Inv : forall l, SS l -> WF l -> Inv l.
+Proof.
+  induction l as [|[s e] t IH]; intros HS HW; [constructor|].
+  simpl in HS. destruct HS as [HS1 HS2].
+  assert (Ht : Inv t) by (apply IH; [exact HS2|apply (WF_tail _ _ HW)]).
+  destruct HW as [W1 W2].
+  assert (Hlt : s < e) by (apply (W1 (s, e)); left; reflexivity).
+  destruct t as [|[s' e'] t'].
+  - constructor; exact Hlt.
+  - constructor; [exact Hlt| |exact Ht].
+    assert (Hk : s < s') by (apply (HS1 (s', e')); left; reflexivity).
+    assert (Hlt' : s' < e') by (apply (W1 (s', e')); right; left; reflexivity).
+    destruct (W2 (s, e) (s', e')) as [H|[H|H]]; simpl in *;
+      [left; reflexivity|right; left; reflexivity|lia|exact H|lia].
+Qed.
+
+Lemma Inv_KU : forall l, Inv l -> KU l.
+Proof. intros l H. apply SS_KU. apply Inv_SS. exact H. Qed.
+
+Lemma den_ext : forall l l' x, (forall p, In p l <-> In p l') -> (den l x <-> den l' x).
+Proof.
+  intros l l' x H. unfold den. split; intros [s [e [Hin Hr]]]; exists s, e;
+    (split; [apply H; exact Hin|exact Hr]).
+Qed.
+
+Lemma den_cons : forall s e t x, den ((s, e) :: t) x <-> s <= x < e \/ den t x.
+Proof.
+  intros s e t x. unfold den. split.
+  - intros [s1 [e1 [[Hin|Hin] Hr]]].
+    + injection Hin as H1 H2. subst. left; exact Hr.
+    + right. exists s1, e1. split; assumption.
+  - intros [Hr|[s1 [e1 [Hin Hr]]]].
+    + exists s, e. split; [left; reflexivity|exact Hr].
+    + exists s1, e1. split; [right; exact Hin|exact Hr].
+Qed.
+
+Lemma den_sort : forall l x, den (sort_items l) x <-> den l x.
+Proof. intros l x. apply den_ext. intros p. apply In_sort_items. Qed.
+
+Lemma WF_ext : forall l l', (forall p, In p l <-> In p l') -> WF l -> WF l'.
+Proof.
+  intros l l' H [W1 W2]. split.
+  - intros p Hp. apply W1. apply H. exact Hp.
+  - intros p q Hp Hq. apply W2; apply H; assumption.
+Qed.
+
+Lemma Inv_sort : forall m, KU m -> WF m -> Inv (sort_items m).
+Proof.
+  intros m HK HW. apply SS_WF_Inv.
+  - apply SS_sort_items. exact HK.
+  - apply (WF_ext m); [|exact HW]. intros p. symmetry. apply In_sort_items.
+Qed.
+
+(* ------------------------------------------------------------------ *)
+(* Part 3: add                                                         *)
+(* ------------------------------------------------------------------ *)
+
+Lemma disjoint_from_den : forall l s e, WF l -> s < e ->
+  (forall x, s <= x < e -> ~ den l x) ->
+  forall r, In r l -> snd r <= s \/ e <= fst r.
+Proof.
+  intros l s e [W1 W2] Hse H r Hr.
+  destruct (Z_le_gt_dec (snd r) s) as [H1|H1]; [left; exact H1|].
+  destruct (Z_le_gt_dec e (fst r)) as [H2|H2]; [right; exact H2|].
+  exfalso. specialize (W1 r Hr).
+  apply (H (Z.max (fst r) s)); [lia|].
+  destruct r as [rs re]. simpl in *. exists rs, re. split; [exact Hr|lia].
+Qed.
+
+Lemma add_spec : forall l s e,
+  Inv l -> s < e -> (forall x, s <= x < e -> ~ den l x) ->
+  Inv (add (s, e) l) /\ (forall x, den (add (s, e) l) x <-> den l x \/ s <= x < e).
+Proof.
+  intros l s e HI Hse Hdis.
+  assert (HK : KU l) by (apply Inv_KU; exact HI).
+  assert (HW : WF l) by (apply Inv_WF; exact HI).
+  assert (Hsep := disjoint_from_den l s e HW Hse Hdis).
+  destruct HW as [W1 W2].
+  unfold add. simpl fst. simpl snd.
+  split.
+  - apply Inv_sort; [apply KU_update; exact HK|].
+    split.
+    + intros p Hp. apply (In_update s e l p HK) in Hp.
+      destruct Hp as [Hp|[Hp _]]; [subst p; exact Hse|apply W1; exact Hp].
+    + intros p q Hp Hq.
+      apply (In_update s e l p HK) in Hp. apply (In_update s e l q HK) in Hq.
+      destruct Hp as [Hp|[Hp _]]; destruct Hq as [Hq|[Hq _]].
+      * subst p q. left; reflexivity.
+      * subst p. simpl. specialize (Hsep q Hq). specialize (W1 q Hq). lia.
+      * subst q. simpl. specialize (Hsep p Hp). specialize (W1 p Hp). lia.
+      * apply W2; assumption.
+  - intros x. rewrite den_sort. unfold den. split.
+    + intros [s1 [e1 [Hin Hr]]]. apply (In_update s e l _ HK) in Hin.
+      destruct Hin as [Hin|[Hin _]].
+      * injection Hin as H1 H2. subst. right; exact Hr.
+      * left. exists s1, e1. split; assumption.
+    + intros [[s1 [e1 [Hin Hr]]]|Hr].
+      * exists s1, e1. split; [|exact Hr].
+        apply (In_update s e l _ HK). right. split; [exact Hin|]. simpl.
+        specialize (Hsep _ Hin). simpl in Hsep. lia.
+      * exists s, e. split; [|exact Hr].
+        apply (In_update s e l _ HK). left; reflexivity.
+Qed.
+
+(* ------------------------------------------------------------------ *)
+(* Part 4: remove                                                      *)
+(* ------------------------------------------------------------------ *)
+
+Lemma sep_from : forall l a b, Inv l -> In (a, b) l ->
+  a < b /\
+  (forall r, In r l -> fst r = a -> r = (a, b)) /\
+  (forall r, In r l -> fst r <> a -> fst r < snd r /\ (snd r <= a \/ b <= fst r)).
+Proof.
+  intros l a b HI Hin.
+  assert (HK : KU l) by (apply Inv_KU; exact HI).
+  destruct (Inv_WF l HI) as [W1 W2].
+  split; [apply (W1 (a, b) Hin)|]. split.
+  - intros r Hr Hf. apply (KU_inj l r (a, b) HK Hr Hin). simpl. exact Hf.
+  - intros r Hr Hf. split; [apply W1; exact Hr|].
+    destruct (W2 r (a, b) Hr Hin) as [H|[H|H]]; simpl in H.
+    + contradiction.
+    + left; exact H.
+    + right; exact H.
+Qed.
+
+Lemma remove_core : forall l a b s e m,
+  Inv l -> In (a, b) l -> a <= s -> s < e -> e <= b -> KU m ->
+  (forall p, In p m <->
+     (p = (a, s) /\ a < s) \/ (p = (e, b) /\ e < b) \/ (In p l /\ fst p <> a)) ->
+  Inv (sort_items m) /\
+  (forall x, den (sort_items m) x <-> den l x /\ ~ (s <= x < e)).
+Proof.
+  intros l a b s e m HI Hin Has Hse Heb HKm Hm.
+  destruct (sep_from l a b HI Hin) as [Hab [Heq Hsep]].
+  destruct (Inv_WF l HI) as [W1 W2].
+  split.
+  - apply Inv_sort; [exact HKm|]. split.
+    + intros p Hp. apply Hm in Hp.
+      destruct Hp as [[Hp Hp']|[[Hp Hp']|[Hp Hp']]].
+      * subst p. simpl. exact Hp'.
+      * subst p. simpl. exact Hp'.
+      * apply W1; exact Hp.
+    + intros p q Hp Hq. apply Hm in Hp. apply Hm in Hq.
+      destruct Hp as [[Hp Hp']|[[Hp Hp']|[Hp Hp']]];
+      destruct Hq as [[Hq Hq']|[[Hq Hq']|[Hq Hq']]];
+      try subst p; try subst q;
+      try (apply W2; assumption);
+      try (pose proof (Hsep _ Hp Hp') as Sp);
+      try (pose proof (Hsep _ Hq Hq') as Sq);
+      simpl; lia.
+  - intros x. rewrite den_sort. unfold den. split.
+    + intros [s1 [e1 [Hi Hr]]]. apply Hm in Hi.
+      destruct Hi as [[Hi Hi']|[[Hi Hi']|[Hi Hi']]].
+      * injection Hi as H1 H2. subst s1 e1.
+        split; [exists a, b; split; [exact Hin|lia]|lia].
+      * injection Hi as H1 H2. subst s1 e1.
+        split; [exists a, b; split; [exact Hin|lia]|lia].
+      * pose proof (Hsep _ Hi Hi') as Sp. simpl in Sp.
+        split; [exists s1, e1; split; [exact Hi|exact Hr]|lia].
+    + intros [[s1 [e1 [Hi Hr]]] Hn].
+      destruct (Z.eq_dec s1 a) as [Ea|Ea].
+      * pose proof (Heq _ Hi Ea) as Hp. injection Hp as H1 H2. subst s1 e1.
+        destruct (Z_lt_le_dec x s) as [Hx|Hx].
+        -- exists a, s. split; [|lia]. apply Hm. left. split; [reflexivity|lia].
+        -- exists e, b. split; [|lia]. apply Hm. right. left. split; [reflexivity|lia].
+      * exists s1, e1. split; [|exact Hr]. apply Hm. right. right.
+        split; [exact Hi|simpl; exact Ea].
+Qed.
+
+Lemma remove_inside_spec : forall l s e a b,
+  Inv l -> s < e -> In (a, b) l -> a <= s -> e <= b ->
+  exists l', remove (s, e) l = Ok (l', true) /\ Inv l' /\
+             (forall x, den l' x <-> den l x /\ ~ (s <= x < e)).
+Proof.
+  intros l s e a b HI Hse Hin Has Heb.
+  assert (HK : KU l) by (apply Inv_KU; exact HI).
+  destruct (sep_from l a b HI Hin) as [Hab [Heq Hsep]].
+  unfold remove. simpl fst. simpl snd.
+  destruct (e - s =? 0) eqn:E0; [apply Z.eqb_eq in E0; lia|].
+  destruct (Z.eq_dec s a) as [Esa|Esa].
+  - subst s. rewrite (get_some a b l HK Hin).
+    destruct (b <? e) eqn:E1; [apply Z.ltb_lt in E1; lia|].
+    destruct (e =? b) eqn:E2.
+    + apply Z.eqb_eq in E2. subst e.
+      eexists. split; [reflexivity|].
+      apply (remove_core l a b a b (pop a l) HI Hin Has Hse Heb).
+      * apply KU_pop; exact HK.
+      * intros p. rewrite (In_pop a l p HK). split.
+        -- intros [Hp Hn]. right. right. split; assumption.
+        -- intros [[_ Hlt]|[[_ Hlt]|[Hp Hn]]]; [lia|lia|split; assumption].
+    + apply Z.eqb_neq in E2.
+      eexists. split; [reflexivity|].
+      apply (remove_core l a b a e (update e b (pop a l)) HI Hin Has Hse Heb).
+      * apply KU_update. apply KU_pop; exact HK.
+      * intros p. rewrite (In_update e b (pop a l) p (KU_pop a l HK)).
+        rewrite (In_pop a l p HK). split.
+        -- intros [Hp|[[Hp Hn] Hne]].
+           ++ right. left. split; [exact Hp|lia].
+           ++ right. right. split; assumption.
+        -- intros [[_ Hlt]|[[Hp Hlt]|[Hp Hn]]]; [lia|left; exact Hp|].
+           right. split; [split; assumption|].
+           pose proof (Hsep _ Hp Hn) as Sp. lia.
+  - assert (Hg : get s l = None).
+    { apply get_none. intros q Hq Hf.
+      destruct (Z.eq_dec (fst q) a) as [Ea|Ea]; [lia|].
+      pose proof (Hsep _ Hq Ea) as Sp. lia. }
+    rewrite Hg.
+    assert (Hf : find_enclosing s l = Some (a, b)).
+    { destruct (find_enclosing s l) as [r|] eqn:F.
+      - destruct (find_enclosing_some s l r F) as [Hr Hrs].
+        destruct (Z.eq_dec (fst r) a) as [Ea|Ea].
+        + rewrite (Heq _ Hr Ea). reflexivity.
+        + pose proof (Hsep _ Hr Ea) as Sp. lia.
+      - exfalso. apply (find_enclosing_none s l F (a, b) Hin). simpl. lia. }
+    rewrite Hf.
+    destruct (b <? e) eqn:E1; [apply Z.ltb_lt in E1; lia|].
+    destruct (e =? b) eqn:E2.
+    + apply Z.eqb_eq in E2. subst e.
+      eexists. split; [reflexivity|].
+      apply (remove_core l a b s b (update a s l) HI Hin Has Hse Heb).
+      * apply KU_update; exact HK.
+      * intros p. rewrite (In_update a s l p HK). split.
+        -- intros [Hp|[Hp Hn]].
+           ++ left. split; [exact Hp|lia].
+           ++ right. right. split; assumption.
+        -- intros [[Hp Hlt]|[[_ Hlt]|[Hp Hn]]]; [left; exact Hp|lia|].
+           right. split; assumption.
+    + apply Z.eqb_neq in E2.
+      eexists. split; [reflexivity|].
+      apply (remove_core l a b s e (update e b (update a s l)) HI Hin Has Hse Heb).
+      * apply KU_update. apply KU_update; exact HK.
+      * intros p. rewrite (In_update e b (update a s l) p (KU_update a s l HK)).
+        rewrite (In_update a s l p HK). split.
+        -- intros [Hp|[[Hp|[Hp Hn]] Hne]].
+           ++ right. left. split; [exact Hp|lia].
+           ++ left. split; [exact Hp|lia].
+           ++ right. right. split; assumption.
+        -- intros [[Hp Hlt]|[[Hp Hlt]|[Hp Hn]]].
+           ++ right. split; [left; exact Hp|]. subst p. simpl. lia.
+           ++ left; exact Hp.
+           ++ right. split; [right; split; assumption|].
+              pose proof (Hsep _ Hp Hn) as Sp. lia.
+Qed.
+
+Lemma remove_untouched_spec : forall l s e,
+  Inv l -> s <= e -> (forall x, s <= x < e -> ~ den l x) ->
+  remove (s, e) l = Ok (l, false).
+Proof.
+  intros l s e HI Hse Hdis.
+  destruct (Inv_WF l HI) as [W1 W2].
+  unfold remove. simpl fst. simpl snd.
+  destruct (e - s =? 0) eqn:E0; [reflexivity|].
+  apply Z.eqb_neq in E0.
+  assert (Hg : get s l = None).
+  { apply get_none. intros q Hq Hf. apply (Hdis s); [lia|].
+    destruct q as [qs qe]. simpl in Hf. subst qs.
+    exists s, qe. split; [exact Hq|]. specialize (W1 _ Hq). simpl in W1. lia. }
+  rewrite Hg.
+  destruct (find_enclosing s l) as [r|] eqn:F; [|reflexivity].
+  exfalso. destruct (find_enclosing_some s l r F) as [Hr Hrs].
+  apply (Hdis s); [lia|]. destruct r as [rs re]. simpl in Hrs.
+  exists rs, re. split; [exact Hr|lia].
+Qed.
+
+Lemma remove_reports_change : forall l s e l' b,
+  Inv l -> op_pre l (ORemove s e) -> remove (s, e) l = Ok (l', b) ->
+  (b = true <-> exists x, ~ (den l' x <-> den l x)).
+Proof.
+  intros l s e l' b HI Hpre Hrm.
+  simpl in Hpre. destruct Hpre as [Hse Hcase].
+  assert (Hsame : remove (s, e) l = Ok (l, false) ->
+                  (b = true <-> exists x, ~ (den l' x <-> den l x))).
+  { intros Hu. rewrite Hu in Hrm. injection Hrm as H1 H2. subst l' b. split.
+    - intros H; discriminate.
+    - intros [x Hx]. exfalso. apply Hx. tauto. }
+  destruct Hcase as [[a [b0 [Hin [Has Heb]]]]|Hdis].
+  - destruct (Z.eq_dec s e) as [Ese|Ese].
+    + apply Hsame. subst e. unfold remove. simpl fst. simpl snd.
+      rewrite Z.sub_diag. reflexivity.
+    + assert (Hlt : s < e) by lia.
+      destruct (remove_inside_spec l s e a b0 HI Hlt Hin Has Heb)
+        as [l2 [Hr2 [HI2 Hden]]].
+      rewrite Hr2 in Hrm. injection Hrm as H1 H2. subst l2 b.
+      split; [intros _|reflexivity].
+      exists s. intros Hiff.
+      assert (Hd : den l s) by (exists a, b0; split; [exact Hin|lia]).
+      apply Hiff in Hd. apply Hden in Hd. lia.
+  - apply Hsame. apply remove_untouched_spec; assumption.
+Qed.
+
+Lemma remove_straddle_refused : forall l s e a b,
+  Inv l -> In (a, b) l -> a <= s < b -> b < e ->
+  remove (s, e) l = Err ValueError.
+Proof.
+  intros l s e a b HI Hin Hasb Hbe.
+  assert (HK : KU l) by (apply Inv_KU; exact HI).
+  destruct (sep_from l a b HI Hin) as [Hab [Heq Hsep]].
+  unfold remove. simpl fst. simpl snd.
+  destruct (e - s =? 0) eqn:E0; [apply Z.eqb_eq in E0; lia|].
+  destruct (Z.eq_dec s a) as [Esa|Esa].
+  - subst s. rewrite (get_some a b l HK Hin).
+    destruct (b <? e) eqn:E1; [reflexivity|apply Z.ltb_ge in E1; lia].
+  - assert (Hg : get s l = None).
+    { apply get_none. intros q Hq Hf.
+      destruct (Z.eq_dec (fst q) a) as [Ea|Ea]; [lia|].
+      pose proof (Hsep _ Hq Ea) as Sp. lia. }
+    rewrite Hg.
+    assert (Hf : find_enclosing s l = Some (a, b)).
+    { destruct (find_enclosing s l) as [r|] eqn:F.
+      - destruct (find_enclosing_some s l r F) as [Hr Hrs].
+        destruct (Z.eq_dec (fst r) a) as [Ea|Ea].
+        + rewrite (Heq _ Hr Ea). reflexivity.
+        + pose proof (Hsep _ Hr Ea) as Sp. lia.
+      - exfalso. apply (find_enclosing_none s l F (a, b) Hin). simpl. lia. }
+    rewrite Hf.
+    destruct (b <? e) eqn:E1; [reflexivity|apply Z.ltb_ge in E1; lia].
+Qed.
+
+Lemma remove_pre_no_error : forall l s e,
+  Inv l -> op_pre l (ORemove s e) -> exists l' b, remove (s, e) l = Ok (l', b).
+Proof.
+  intros l s e HI Hpre. simpl in Hpre. destruct Hpre as [Hse Hcase].
+  destruct Hcase as [[a [b0 [Hin [Has Heb]]]]|Hdis].
+  - destruct (Z.eq_dec s e) as [Ese|Ese].
+    + exists l, false. subst e. unfold remove. simpl fst. simpl snd.
+      rewrite Z.sub_diag. reflexivity.
+    + assert (Hlt : s < e) by lia.
+      destruct (remove_inside_spec l s e a b0 HI Hlt Hin Has Heb)
+        as [l2 [Hr2 _]].
+      exists l2, true. exact Hr2.
+  - exists l, false. apply remove_untouched_spec; assumption.
+Qed.
+
+(* ------------------------------------------------------------------ *)
+(* Part 5: coalesce                                                    *)
+(* ------------------------------------------------------------------ *)
+
+Lemma invgap_inv : forall l, InvGap l -> Inv l.
+Proof.
+  intros l H. induction H as [|s e Hse|s e s' e' t Hse Hes HG IH].
+  - constructor.
+  - constructor; exact Hse.
+  - constructor; [exact Hse|lia|exact IH].
+Qed.
+
+(* the loop as a structural recursion *)
+Fixpoint coal (cs ce : Z) (l : tracker) : list seg :=
+  match l with
+  | [] => [(cs, ce)]
+  | p :: t => if fst p =? ce then coal cs (snd p) t
+              else (cs, ce) :: coal (fst p) (snd p) t
+  end.
+
+Lemma fold_coal : forall l m cs ce m' cs' ce',
+  fold_left coalesce_step l (m, cs, ce) = (m', cs', ce') ->
+  m' ++ [(cs', ce')] = m ++ coal cs ce l.
+Proof.
+  induction l as [|p t IH]; intros m cs ce m' cs' ce' H.
+  - simpl in H. injection H as H1 H2 H3. subst. reflexivity.
+  - change (fold_left coalesce_step (p :: t) (m, cs, ce))
+      with (fold_left coalesce_step t (coalesce_step (m, cs, ce) p)) in H.
+    simpl coal.
+    assert (Hs : coalesce_step (m, cs, ce) p =
+                 if fst p =? ce then (m, cs, snd p)
+                 else (m ++ [(cs, ce)], fst p, snd p)) by reflexivity.
+    rewrite Hs in H. clear Hs.
+    destruct (fst p =? ce) eqn:E.
+    + apply IH. exact H.
+    + rewrite (IH _ _ _ _ _ _ H). rewrite <- app_assoc. reflexivity.
+Qed.
+
+Lemma coal_head : forall l cs ce, exists e' r, coal cs ce l = (cs, e') :: r.
+Proof.
+  induction l as [|p t IH]; intros cs ce; simpl.
+  - exists ce, []. reflexivity.
+  - destruct (fst p =? ce).
+    + apply IH.
+    + exists ce, (coal (fst p) (snd p) t). reflexivity.
+Qed.
+
+Lemma coal_gap : forall t cs ce,
+  cs < ce -> Inv t -> (forall q, In q t -> ce <= fst q) -> InvGap (coal cs ce t).
+Proof.
+  induction t as [|[ps pe] t IH]; intros cs ce Hlt HI Hall; simpl.
+  - constructor; exact Hlt.
+  - destruct (Inv_head ps pe t HI) as [Hp Hall'].
+    assert (Hce : ce <= ps) by (apply (Hall (ps, pe)); left; reflexivity).
+    assert (HIt : Inv t) by (apply (Inv_tail _ _ HI)).
+    assert (Hall2 : forall q, In q t -> pe <= fst q)
+      by (intros q Hq; apply (Hall' q Hq)).
+    destruct (ps =? ce) eqn:E.
+    + apply Z.eqb_eq in E. apply IH; [lia|exact HIt|exact Hall2].
+    + apply Z.eqb_neq in E.
+      assert (HG : InvGap (coal ps pe t)) by (apply IH; [exact Hp|exact HIt|exact Hall2]).
+      destruct (coal_head t ps pe) as [e' [r Hr]]. rewrite Hr in *.
+      constructor; [exact Hlt|lia|exact HG].
+Qed.
+
+Lemma coal_den : forall t cs ce x,
+  cs < ce -> Inv t -> (forall q, In q t -> ce <= fst q) ->
+  (den (coal cs ce t) x <-> cs <= x < ce \/ den t x).
+Proof.
+  induction t as [|[ps pe] t IH]; intros cs ce x Hlt HI Hall; simpl.
+  - apply den_cons.
+  - destruct (Inv_head ps pe t HI) as [Hp Hall'].
+    assert (Hce : ce <= ps) by (apply (Hall (ps, pe)); left; reflexivity).
+    assert (HIt : Inv t) by (apply (Inv_tail _ _ HI)).
+    assert (Hall2 : forall q, In q t -> pe <= fst q)
+      by (intros q Hq; apply (Hall' q Hq)).
+    rewrite (den_cons ps pe t x).
+    destruct (ps =? ce) eqn:E.
+    + apply Z.eqb_eq in E.
+      rewrite (IH cs pe x); [|lia|exact HIt|exact Hall2].
+      split.
+      * intros [H|H]; [|right; right; exact H].
+        destruct (Z_lt_le_dec x ce); [left; lia|right; left; lia].
+      * intros [H|[H|H]]; [left; lia|left; lia|right; exact H].
+    + rewrite (den_cons cs ce _ x).
+      rewrite (IH ps pe x Hp HIt Hall2). tauto.
+Qed.
+
+Lemma fold_update_KU : forall c acc, KU (acc ++ c) ->
+  fold_left (fun d p => update (fst p) (snd p) d) c acc = acc ++ c.
+Proof.
+  induction c as [|[k v] c IH]; intros acc HK; simpl.
+  - rewrite app_nil_r. reflexivity.
+  - rewrite (update_notin k v acc).
+    + rewrite IH.
+      * rewrite <- app_assoc. reflexivity.
+      * rewrite <- app_assoc. exact HK.
+    + intros q Hq. apply (KU_app_mid acc (k, v) c HK q Hq).
+Qed.
+
+Lemma dict_of_list_KU : forall c, KU c -> dict_of_list c = c.
+Proof.
+  intros c HK. unfold dict_of_list. apply (fold_update_KU c [] HK).
+Qed.
+
+Lemma dict_of_list_dup_head : forall k v v' r,
+  dict_of_list ((k, v) :: (k, v') :: r) = dict_of_list ((k, v') :: r).
+Proof.
+  intros k v v' r. unfold dict_of_list. simpl. rewrite Z.eqb_refl. reflexivity.
+Qed.
+
+Lemma coalesce_eq : forall s0 e0 q t, s0 <> e0 ->
+  coalesce ((s0, e0) :: q :: t) = dict_of_list ((s0, e0) :: coal s0 e0 (q :: t)).
+Proof.
+  intros s0 e0 q t Hne. unfold coalesce.
+  destruct (fold_left coalesce_step ((s0, e0) :: q :: t) ([], s0, e0))
+    as [[m cs] ce] eqn:F.
+  change (fold_left coalesce_step ((s0, e0) :: q :: t) ([], s0, e0))
+    with (fold_left coalesce_step (q :: t)
+            (coalesce_step ([], s0, e0) (s0, e0))) in F.
+  assert (Hs : coalesce_step ([], s0, e0) (s0, e0) = ([(s0, e0)], s0, e0)).
+  { unfold coalesce_step. simpl fst. simpl snd.
+    rewrite (proj2 (Z.eqb_neq s0 e0) Hne). reflexivity. }
+  rewrite Hs in F. apply fold_coal in F. rewrite F. reflexivity.
+Qed.
+
+Lemma coalesce_spec : forall l,
+  Inv l -> InvGap (coalesce l) /\ (forall x, den (coalesce l) x <-> den l x).
+Proof.
+  intros l HI. destruct l as [|[s0 e0] [|q t]].
+  - simpl. split; [constructor|tauto].
+  - simpl. split; [|tauto]. inversion HI; subst. constructor; assumption.
+  - destruct (Inv_head s0 e0 (q :: t) HI) as [Hlt Hall].
+    assert (HIt : Inv (q :: t)) by (apply (Inv_tail _ _ HI)).
+    assert (Hall2 : forall r, In r (q :: t) -> e0 <= fst r)
+      by (intros r Hr; apply (Hall r Hr)).
+    assert (HG : InvGap (coal s0 e0 (q :: t))) by (apply coal_gap; assumption).
+    assert (Hc : coalesce ((s0, e0) :: q :: t) = coal s0 e0 (q :: t)).
+    { rewrite coalesce_eq by lia.
+      destruct (coal_head (q :: t) s0 e0) as [e' [r Hr]].
+      transitivity (dict_of_list ((s0, e0) :: (s0, e') :: r));
+        [f_equal; f_equal; exact Hr|].
+      rewrite dict_of_list_dup_head.
+      transitivity ((s0, e') :: r); [|symmetry; exact Hr].
+      apply dict_of_list_KU. apply Inv_KU. apply invgap_inv.
+      rewrite Hr in HG. exact HG. }
+    change (InvGap (coalesce ((s0, e0) :: q :: t)) /\
+            (forall x, den (coalesce ((s0, e0) :: q :: t)) x <->
+                       den ((s0, e0) :: q :: t) x)).
+    rewrite Hc. split; [exact HG|].
+    intros x. rewrite (coal_den (q :: t) s0 e0 x Hlt HIt Hall2).
+    rewrite (den_cons s0 e0 (q :: t) x). tauto.
+Qed.
+
+(* ------------------------------------------------------------------ *)
+(* Part 6: refinement of operation sequences; non-vacuity              *)
+(* ------------------------------------------------------------------ *)
+
+Lemma step_refines : forall l o, Inv l -> op_pre l o ->
+  Inv (fst (lstep l o)) /\
+  (forall x, den (fst (lstep l o)) x <-> spec_step (den l) o x).
+Proof.
+  intros l o HI Hpre. destruct o as [s e|s e| |].
+  - simpl in Hpre. destruct Hpre as [Hse Hdis]. simpl.
+    apply add_spec; assumption.
+  - assert (Hsame : remove (s, e) l = Ok (l, false) ->
+                    (forall x, den l x -> ~ (s <= x < e)) ->
+                    Inv (fst (lstep l (ORemove s e))) /\
+                    (forall x, den (fst (lstep l (ORemove s e))) x <->
+                               spec_step (den l) (ORemove s e) x)).
+    { intros Hu Hn. simpl. rewrite Hu. simpl. split; [exact HI|].
+      intros x. split; [intros H; split; [exact H|apply Hn; exact H]|tauto]. }
+    simpl in Hpre. destruct Hpre as [Hse Hcase].
+    destruct Hcase as [[a [b0 [Hin [Has Heb]]]]|Hdis].
+    + destruct (Z.eq_dec s e) as [Ese|Ese].
+      * apply Hsame; [|intros x _; lia].
+        subst e. unfold remove. simpl fst. simpl snd.
+        rewrite Z.sub_diag. reflexivity.
+      * assert (Hlt : s < e) by lia.
+        destruct (remove_inside_spec l s e a b0 HI Hlt Hin Has Heb)
+          as [l2 [Hr2 [HI2 Hden]]].
+        simpl. rewrite Hr2. simpl. split; [exact HI2|exact Hden].
+    + apply Hsame; [apply remove_untouched_spec; assumption|].
+      intros x Hx Hr. apply (Hdis x Hr Hx).
+  - simpl. destruct (coalesce_spec l HI) as [HG Hden].
+    split; [apply invgap_inv; exact HG|exact Hden].
+  - simpl. split; [constructor|].
+    intros x. unfold reset, den. split; [|contradiction].
+    intros [s [e [Hin _]]]. contradiction.
+Qed.
+
+Lemma spec_step_ext : forall S S' o, (forall x, S x <-> S' x) ->
+  forall x, spec_step S o x <-> spec_step S' o x.
+Proof.
+  intros S S' o H x. destruct o as [s e|s e| |]; simpl.
+  - rewrite (H x). tauto.
+  - rewrite (H x). tauto.
+  - apply H.
+  - tauto.
+Qed.
+
+Lemma run_refines_set : forall ops l S,
+  Inv l -> (forall x, den l x <-> S x) -> run_pre l ops ->
+  Inv (run l ops) /\ (forall x, den (run l ops) x <-> spec_run S ops x).
+Proof.
+  induction ops as [|o t IH]; intros l S HI HS Hpre.
+  - simpl. split; assumption.
+  - simpl in Hpre. destruct Hpre as [Hpo Hpt].
+    destruct (step_refines l o HI Hpo) as [HI' Hden'].
+    simpl run. simpl spec_run.
+    apply IH; [exact HI'| |exact Hpt].
+    intros x. rewrite (Hden' x). apply spec_step_ext. exact HS.
+Qed.
+
+Lemma run_pre_cons : forall l o t l',
+  fst (lstep l o) = l' -> op_pre l o -> run_pre l' t -> run_pre l (o :: t).
+Proof.
+  intros l o t l' Hl Ho Ht. simpl. rewrite Hl. split; assumption.
+Qed.
+
+Ltac den_false :=
+  let x := fresh "x" in let Hx := fresh "Hx" in
+  let s' := fresh "s" in let e' := fresh "e" in
+  let Hin := fresh "Hin" in let Hr := fresh "Hr" in
+  intros x Hx [s' [e' [Hin Hr]]]; simpl in Hin;
+  repeat (destruct Hin as [Hin|Hin]; [inversion Hin; subst; lia|]);
+  try contradiction.
+
+Lemma nv_run_pre :
+  run_pre [] [OAdd 4 8; OAdd 0 2; OAdd 8 10; ORemove 5 6; OCoalesce; ORemove 0 2; OReset].
+Proof.
+  apply (run_pre_cons _ _ _ [(4, 8)]); [vm_compute; reflexivity| |].
+  { simpl. split; [lia|den_false]. }
+  apply (run_pre_cons _ _ _ [(0, 2); (4, 8)]); [vm_compute; reflexivity| |].
+  { simpl. split; [lia|den_false]. }
+  apply (run_pre_cons _ _ _ [(0, 2); (4, 8); (8, 10)]); [vm_compute; reflexivity| |].
+  { simpl. split; [lia|den_false]. }
+  apply (run_pre_cons _ _ _ [(0, 2); (4, 5); (6, 8); (8, 10)]); [vm_compute; reflexivity| |].
+  { simpl. split; [lia|]. left. exists 4, 8. split; [simpl; tauto|lia]. }
+  apply (run_pre_cons _ _ _ [(0, 2); (4, 5); (6, 10)]); [vm_compute; reflexivity| |].
+  { exact I. }
+  apply (run_pre_cons _ _ _ [(4, 5); (6, 10)]); [vm_compute; reflexivity| |].
+  { simpl. split; [lia|]. left. exists 0, 2. split; [simpl; tauto|lia]. }
+  apply (run_pre_cons _ _ _ []); [vm_compute; reflexivity| |].
+  { exact I. }
+  exact I.
+Qed.
+
+Print Assumptions add_spec.
+Print Assumptions remove_inside_spec.
+Print Assumptions remove_untouched_spec.
+Print Assumptions remove_reports_change.
+Print Assumptions remove_straddle_refused.
+Print Assumptions remove_pre_no_error.
+Print Assumptions coalesce_spec.
+Print Assumptions run_refines_set.
+Print Assumptions invgap_inv.
+Print Assumptions nv_run_pre.
